@@ -21,8 +21,8 @@
 (* ("remove", what Python 3.4 does: the next import runs the body again).                     *)
 EXTENDS PyImportCfg, Json
 
-VARIABLES prog, policy, starerr, fstar, store, stack, exc, ns, nsall, cnt, log, cls, obs, runs, fails, made, binds, steps
-vars == <<prog, policy, starerr, fstar, store, stack, exc, ns, nsall, cnt, log, cls, obs, runs, fails, made, binds, steps>>
+VARIABLES prog, policy, starerr, fstar, modattr, store, stack, exc, ns, nsall, cnt, log, cls, obs, runs, fails, made, binds, steps
+vars == <<prog, policy, starerr, fstar, modattr, store, stack, exc, ns, nsall, cnt, log, cls, obs, runs, fails, made, binds, steps>>
 
 Op(o) == [form |-> o, t |-> "-"]
 ValuesOf(m) == [v |-> m \o ".v", _h |-> m \o "._h", pub |-> m \o ".pub"]
@@ -48,7 +48,7 @@ Frame(m) == [m |-> m, pc |-> 1, wait |-> FALSE, tc |-> "-"]
 
 InitWith(f, S) ==
   /\ \E c \in S : prog = ProgOf(f, c) /\ policy \in Policies(c) /\ starerr \in StarErrs(c)
-  /\ store = {} /\ stack = << Frame(Main) >> /\ exc = "none" /\ fstar = {}
+  /\ store = {} /\ stack = << Frame(Main) >> /\ exc = "none" /\ fstar = {} /\ modattr = [m \in All |-> {}]
   /\ ns = [m \in All |-> EmptyNs] /\ nsall = [m \in All |-> "no"] /\ cnt = [m \in Mods |-> 0]
   /\ log = <<>> /\ cls = <<>> /\ obs = <<>>
   /\ runs = [m \in Mods |-> 0] /\ fails = [m \in Mods |-> 0] /\ made = [m \in Mods |-> 0] /\ binds = [m \in Mods |-> <<>>]
@@ -79,14 +79,14 @@ Advance(es, cs) ==
 ClsOf(s, tc) == <<"stmt", s.form, IF s.t \in fstar THEN tc \o "+failed-star" ELSE tc>>
 ImportErrorEntry == << <<Top.m, Idx, "ImportError">> >>
 
-AtImport == Active /\ exc = "none" /\ Cur.form \in Forms
+AtImport == Active /\ exc = "none" /\ Cur.form \in ImportForms
 
 (* import of a module that exists nowhere: ImportError, nothing registered *)
 MissingModule ==
   /\ AtImport /\ ~Top.wait /\ Cur.t = Missing
   /\ store' = store
   /\ Advance(ImportErrorEntry, << ClsOf(Cur, "missing") >>)
-  /\ Tick /\ UNCHANGED <<prog, policy, starerr, fstar, exc, ns, nsall, cnt, runs, fails, made, binds>>
+  /\ Tick /\ UNCHANGED <<prog, policy, starerr, modattr, fstar, exc, ns, nsall, cnt, runs, fails, made, binds>>
 
 (* first import in this context: the module is registered BEFORE its body runs *)
 RegisterBeforeRun ==
@@ -96,7 +96,7 @@ RegisterBeforeRun ==
      /\ ns' = [ns EXCEPT ![t] = EmptyNs] /\ nsall' = [nsall EXCEPT ![t] = "no"] /\ cnt' = [cnt EXCEPT ![t] = 0]
      /\ made' = [made EXCEPT ![t] = @ + 1] /\ binds' = [binds EXCEPT ![t] = <<>>]
      /\ stack' = Append(SetTop([Top EXCEPT !.wait = TRUE, !.tc = "first"]), Frame(t))
-     /\ fstar' = fstar \ {t}
+     /\ fstar' = fstar \ {t} /\ modattr' = [modattr EXCEPT ![t] = {}]
   /\ Tick /\ UNCHANGED <<prog, policy, starerr, exc, log, cls, obs, runs, fails>>
 
 (* from t import *  binds exactly __all__ if t has one, else the names not starting with an underscore *)
@@ -125,12 +125,21 @@ BindNames ==
             ELSE /\ ns' = [ns EXCEPT ![I][IF s.form = "from" THEN "v" ELSE "w"] = T.v]
                  /\ Advance(<< <<I, Idx, "from", T.v>> >>, c) /\ UNCHANGED <<cnt, binds>>
        [] s.form = "from_missing" -> Advance(ImportErrorEntry, c) /\ UNCHANGED <<ns, cnt, binds>>
+       [] s.form \in ModNameForms ->       \* only t's own attribute counts, not what the module table holds under the name u
+            /\ Advance(IF s.u \in modattr[t] THEN << <<I, Idx, "frommod", s.u>> >> ELSE ImportErrorEntry, c)
+            /\ UNCHANGED <<ns, cnt, binds>>
        [] s.form = "star" ->
             LET new == [n \in Names |-> IF n \in StarNames(t) THEN T[n] ELSE ns[I][n]] IN
             /\ ns' = [ns EXCEPT ![I] = new]
             /\ Advance(IF StarFails(t) THEN << <<I, Idx, starerr>> >> ELSE << <<I, Idx, "star", new.v, new._h, new.pub, new.w>> >>, c)
             /\ UNCHANGED <<cnt, binds>>
   /\ fstar' = IF Spreads THEN fstar \cup {Top.m} ELSE fstar
+  \* modattr[m]: the module names bound as attributes of m (import u, from t import u, a star-import that copied them)
+  /\ modattr' = [modattr EXCEPT ![Top.m] =
+        CASE Cur.form = "import" -> @ \cup {Cur.t}
+          [] Cur.form = "frommod" /\ Cur.u \in modattr[Cur.t] -> @ \cup {Cur.u}
+          [] Cur.form = "star" /\ nsall[Cur.t] = "no" -> @ \cup modattr[Cur.t]
+          [] OTHER -> @]
   /\ Tick /\ UNCHANGED <<prog, policy, starerr, exc, nsall, runs, fails, made>>
 
 (* the other steps of a module body *)
@@ -145,13 +154,13 @@ RunBodyStep ==
                               /\ nsall' = [nsall EXCEPT ![m] = Cur.allv]
                               /\ stack' = nxt /\ UNCHANGED <<exc, log, cls, runs>>
        [] Cur.form = "raise" -> exc' = "ValueError" /\ UNCHANGED <<stack, ns, nsall, log, cls, runs>>
-  /\ Tick /\ UNCHANGED <<prog, policy, starerr, fstar, store, cnt, obs, fails, made, binds>>
+  /\ Tick /\ UNCHANGED <<prog, policy, starerr, modattr, fstar, store, cnt, obs, fails, made, binds>>
 
 (* a body ran to its end: the import that started it can bind *)
 FinishImport ==
   /\ stack # <<>> /\ exc = "none" /\ Top.pc > Len(Body(Top.m))
   /\ stack' = Rest
-  /\ Tick /\ UNCHANGED <<prog, policy, starerr, fstar, store, exc, ns, nsall, cnt, log, cls, obs, runs, fails, made, binds>>
+  /\ Tick /\ UNCHANGED <<prog, policy, starerr, modattr, fstar, store, exc, ns, nsall, cnt, log, cls, obs, runs, fails, made, binds>>
 
 (* an exception leaves a module body: the import fails, the importer's statement raises it *)
 FailBody ==
@@ -159,14 +168,14 @@ FailBody ==
   /\ stack' = Rest
   /\ store' = IF policy = "remove" THEN store \ {Top.m} ELSE store
   /\ fails' = [fails EXCEPT ![Top.m] = @ + 1]
-  /\ Tick /\ UNCHANGED <<prog, policy, starerr, fstar, exc, ns, nsall, cnt, log, cls, obs, runs, made, binds>>
+  /\ Tick /\ UNCHANGED <<prog, policy, starerr, modattr, fstar, exc, ns, nsall, cnt, log, cls, obs, runs, made, binds>>
 
 (* ... and the main program catches it; the context stays usable *)
 CatchInMain ==
   /\ stack # <<>> /\ exc # "none" /\ Top.m = Main
   /\ store' = store /\ exc' = "none"
   /\ Advance(<< <<Main, Idx, exc>> >>, << <<"raised", Cur.form, Top.tc>> >>)
-  /\ Tick /\ UNCHANGED <<prog, policy, starerr, fstar, ns, nsall, cnt, runs, fails, made, binds>>
+  /\ Tick /\ UNCHANGED <<prog, policy, starerr, modattr, fstar, ns, nsall, cnt, runs, fails, made, binds>>
 
 Next == MissingModule \/ RegisterBeforeRun \/ BindNames \/ RunBodyStep \/ FinishImport \/ FailBody \/ CatchInMain
 Final == stack = <<>>
